@@ -75,6 +75,22 @@ def lshoot (toks : List String) : String :=
 def handle (toks : List String) : String :=
   match toks with
   | "lshoot" :: rest => lshoot rest
+  -- meanlen n k                    closed form of the mean number of frames of data column k with n interfaces
+  | ["meanlen", n, k] =>
+    match parseNat? n, parseNat? k with
+    | some n, some k => if 0 < k ∧ k < n then showRat (LatticeMoves.meanLen n k) else "bad-op"
+    | _, _ => "bad-op"
+  -- marg n w00 w01 … (row-major n×n)   the matrix of marginals of the permutation distribution ∝ Π W[i,σ(i)], row-major, or `none`
+  | "marg" :: n :: rest =>
+    match parseNat? n, rest.mapM parseRat? with
+    | some n, some ws =>
+      if ws.length = n * n ∧ n ≤ 7 then
+        let W := (List.range n).map (fun i => (ws.drop (i * n)).take n)
+        match LatticeMoves.margMatrix W with
+        | none => "none"
+        | some P => " ".intercalate (P.flatten.map showRat)
+      else "bad-op"
+    | _, _ => "bad-op"
   -- kpaths n o… n n…               matchCount of the interiors, kernelPaths o n, kernelPaths n o, pathWeight o, pathWeight n
   | "kpaths" :: rest =>
     match takeList parseInt? rest with
